@@ -33,8 +33,17 @@ func c16(r *Run) {
 	delay := time.Duration(ch.Range(300, 2500, "resend.ms")) * time.Millisecond
 	mode := ch.Intn(4, "opt.mode") // 0 port, 1 implied, 2 no announce, 3 scrape+port
 	port := 1 + ch.Intn(65535, "opt.port")
+	if ch.Chance(1, 12, "opt.port.zero") {
+		port = 0 // "announce on port 0": nothing sensible to send; whatever is sent must still say port 0
+	}
 	stopKind := ch.Pick([]int{5, 2, 2}, "stop.kind") // never, Close, StopTraversing
 	slowConsumer := ch.Chance(1, 4, "consumer.slow")
+	// the consumer stops reading for good after pauseAfter items, and the announce is
+	// closed some time later (what a caller that is shutting down does)
+	pauseAfter := -1
+	if stopKind == 1 && ch.Chance(1, 2, "consumer.pause") {
+		pauseAfter = ch.Intn(4, "consumer.pause.after")
+	}
 	dupIDs := ch.Chance(1, 8, "flag.dupids")
 	r.Swarm["v6"], r.Swarm["mode"], r.Swarm["stop"], r.Swarm["slow"], r.Swarm["dupids"] = v6, mode, stopKind, slowConsumer, dupIDs
 	form := 0
@@ -63,7 +72,9 @@ func c16(r *Run) {
 		}
 		p := pop.Add(id, r.Addr(form))
 		st := PS(p)
-		switch ch.Pick([]int{10, 2, 1, 1, 2}, "peer.kind") {
+		switch ch.Pick([]int{10, 2, 1, 1, 2, 1}, "peer.kind") {
+		case 5:
+			st.EmptyTok = true
 		case 1:
 			st.NoToken = true
 		case 2:
@@ -85,6 +96,12 @@ func c16(r *Run) {
 			zp := r.Addr(form)
 			zp.Port = 0
 			fake = append(fake, core.CompactNode(r.RandID(), zp)...)
+			if !v6 {
+				// and an address in 0.0.0.0/8, which no lookup of a server may query
+				zn := r.Addr(form)
+				zn.IP = net.IPv4(0, byte(r.Rng.Intn(256)), byte(r.Rng.Intn(256)), byte(r.Rng.Intn(256))).To4()
+				fake = append(fake, core.CompactNode(IDWithPrefix(r.Rng, ih, 40), zn)...)
+			}
 			key := "nodes"
 			if v6 {
 				key = "nodes6"
@@ -112,6 +129,7 @@ func c16(r *Run) {
 	var announces []*core.Write
 	stopCalledAt := time.Time{}
 	stopCalled := false
+	backlogAtStop := 0 // responses received but not yet read by the consumer when Close/StopTraversing was called
 	r.Tap = func(wr *core.Write) bool {
 		if wr.D == nil {
 			return true
@@ -130,6 +148,9 @@ func c16(r *Run) {
 				}
 				if wr.To.Port == 0 {
 					r.Violate("filtered-address-queried", "the announce traversal queried zero-port address %s", wr.ToStr)
+				}
+				if ip4 := wr.To.IP.To4(); ip4 != nil && ip4[0] == 0 {
+					r.Violate("filtered-address-queried", "the announce traversal queried %s (0.0.0.0/8)", wr.ToStr)
 				}
 			}
 			pendingGP[wr.ToStr+"|"+t] = wr.At
@@ -203,11 +224,25 @@ func c16(r *Run) {
 	var mu sync.Mutex
 	var items []got
 	closedSeen := false
+	paused := false
 	cons := r.Go("consumer", func() any {
+		if pauseAfter == 0 {
+			mu.Lock()
+			paused = true
+			mu.Unlock()
+			return nil
+		}
 		for pv := range a.Peers {
 			mu.Lock()
 			items = append(items, got{addr: (&net.UDPAddr{IP: pv.NodeInfo.Addr.IP, Port: pv.NodeInfo.Addr.Port}).String(), id: pv.NodeInfo.ID, n: len(pv.Peers)})
+			n := len(items)
 			mu.Unlock()
+			if n == pauseAfter {
+				mu.Lock()
+				paused = true
+				mu.Unlock()
+				return nil
+			}
 			if slowConsumer {
 				time.Sleep(37 * time.Millisecond)
 			}
@@ -221,6 +256,9 @@ func c16(r *Run) {
 	if stopKind != 0 {
 		r.After(time.Duration(r.Rng.Int63n(int64(6*delay))), "stop", func() {
 			stopCalled, stopCalledAt = true, time.Now()
+			mu.Lock()
+			backlogAtStop = len(resps) - len(items)
+			mu.Unlock()
 			r.FaultHit(map[int]string{1: "announce-close", 2: "stop-traversing"}[stopKind])
 			r.Logf("stop kind=%d", stopKind)
 			if stopKind == 1 {
@@ -242,10 +280,16 @@ func c16(r *Run) {
 		return
 	}
 	if !r.CallDone(cons) || !r.CallDone(fin) {
-		r.Violate("announce-never-finishes", "quiescent with nothing pending: Peers closed=%v Finished fired=%v (stop kind %d called=%v)", r.CallDone(cons), r.CallDone(fin), stopKind, stopCalled)
+		r.Violate("announce-never-finishes", "quiescent with nothing pending: consumer returned=%v (quit reading after %d items: %v) Finished fired=%v (stop kind %d called=%v)", r.CallDone(cons), pauseAfter, pauseAfter >= 0, r.CallDone(fin), stopKind, stopCalled)
 		return
 	}
 	_ = closedSeen
+	mu.Lock()
+	wasPaused := paused
+	mu.Unlock()
+	if wasPaused {
+		r.Probe("consumer-quit-before-close")
+	}
 	// ---- channel oracle
 	mu.Lock()
 	its := append([]got(nil), items...)
@@ -271,6 +315,13 @@ func c16(r *Run) {
 		if stopCalled && !rp.at.Before(stopCalledAt) {
 			continue // delivery may be abandoned once the traversal is stopped
 		}
+		if wasPaused {
+			continue // the consumer did not keep reading
+		}
+		if stopCalled && stopKind == 1 && backlogAtStop > 0 {
+			backlogAtStop-- // still waiting for the consumer when the announce was closed: may be abandoned
+			continue
+		}
 		r.Violate("response-not-delivered", "get_peers response from %s (received at +%v, before any stop) never appeared on Peers although the consumer kept reading", rp.addr, rp.at.Sub(r.Start))
 		return
 	}
@@ -290,6 +341,12 @@ func c16(r *Run) {
 	for _, rp := range resps {
 		if ts, ok := rp.token.(string); ok {
 			tokOf[rp.addr] = append(tokOf[rp.addr], ts)
+			if ts == "" {
+				// a zero-length token: the node may be passed over, or be handed "" back
+				r.Probe("empty-token-reply")
+				maybe[rp.addr] = rp.id
+				continue
+			}
 			if stopCalled && !rp.at.Before(stopCalledAt) {
 				// arrived when the lookup was being stopped: its query may already have
 				// been cancelled, so it is neither a required nor a forbidden member.
@@ -365,7 +422,7 @@ func c16(r *Run) {
 			return
 		}
 	}
-	if mode != 2 && !stopCalled {
+	if mode != 2 && !stopCalled && port != 0 {
 		// completeness within the statement: with announcing on and no stop, the closest responders get an announce
 		want := min(len(elig), 8)
 		if len(perAddr) < want && !dupIDs {
